@@ -15,6 +15,7 @@
 #include <rapidcheck.h>
 
 #include <algorithm>
+#include <chrono>
 #include <cinttypes>
 #include <csignal>
 #include <cstdarg>
@@ -239,6 +240,8 @@ struct Ctx
 		rc::detail::TestMetadata md;
 		md.id = name; md.description = name;
 		long long const before = failures;
+		auto const t_start = std::chrono::steady_clock::now();
+		struct Timer { Ctx* c; std::string n; std::chrono::steady_clock::time_point t0; ~Timer() { c->labels["ms:" + n] += (long long)std::chrono::duration_cast<std::chrono::milliseconds>(std::chrono::steady_clock::now() - t0).count(); } } timer{this, name, t_start};
 		auto res = rc::detail::checkTestable([&]() {
 			Case const c = *gen;
 			Verdict const v = eval(c);
